@@ -6,5 +6,7 @@ git -C "$WT" checkout -- . ; git -C "$WT" clean -fdq src tests
 for pf in "$OUT"/patch*.diff; do
   n=$(basename "$pf" .diff | sed 's/patch//')
   [ -f "$OUT/demo$n.diff" ] || { echo "$3 $n: no demo"; continue; }
+  # already confirmed in an earlier run: skip
+  grep -q '"confirmed": true' "$OUT/confirm$n.json" 2>/dev/null && { echo "$OUT/patch$n already CONFIRMED"; continue; }
   /verif/tools/iso_run.sh "$WT:$OUT" python3 /verif/tools/confirm_seed.py "$WT" "$OUT" "$n" 2>&1 | tail -1
 done
